@@ -206,7 +206,8 @@ def u_projector_view(copy):
     return Unit(f'X_orthogonalizer[copy={copy}].projector-view', body, loops={(q, 0): LoopContract(inv)}, functions=[q])
 
 def gram_pinv_axioms():
-    """Moore-Penrose facts for the Gram matrix G = A^T A (range(A^T) = range(G)): A G^+ G = A and G G^+ A^T = A^T"""
+    """Moore-Penrose facts for the Gram matrix G = A^T A (range(A^T) = range(G)): A G^+ G = A and G G^+ A^T = A^T
+    (Lean theorems gram_pinv_absorbs / gram_pinv_absorbs_left in lemmas/lean/Lemmas.lean: consequences of the Penrose conditions)"""
     A = z3.Const('A!g', Mat)
     G = mul(T(A), A)
     return [ForAll([A], mul(A, mul(ML.pinv(G), G)) == A, patterns=[ML.pinv(G)]),
